@@ -1,7 +1,124 @@
-//! More vector kinds (filled in as the instances are added).
-use crate::runner::Ctx;
-use serde_json::Value as J;
+//! Key canonicalisation (C20), fixed points (C07), one-item discipline and API agreement (C13).
+use crate::abs::*;
+use crate::judge::*;
+use crate::machine::*;
+use crate::reader;
+use crate::runner::{enc_abs, hash_pub, Ctx};
+use coset::cbor::value::Value;
+use coset::{CborSerializable, CoseKey};
+use serde_json::{json, Value as J};
+use std::panic::{catch_unwind, AssertUnwindSafe};
 
-pub fn run_other(ctx: &mut Ctx, kind: &str, _v: &J) {
-    ctx.harness_error(format!("unknown vector kind {}", kind));
+fn prop_of(v: &J) -> String {
+    v["props"][0].as_str().unwrap_or("").to_string()
+}
+
+fn len_first(a: &[u8], b: &[u8]) -> std::cmp::Ordering {
+    a.len().cmp(&b.len()).then(a.cmp(b))
+}
+
+fn run_canon(ctx: &mut Ctx, v: &J) {
+    let p = prop_of(v);
+    ctx.evaluations += 1;
+    let h = hash_pub(&json!([v["key"], v["ord"]]));
+    ctx.distinct.insert(h);
+    if v["nt"].as_bool().unwrap_or(true) {
+        ctx.nontrivial.insert(h);
+    }
+    let ord_name = v["ord"].as_str().unwrap_or("");
+    let mut m = Machine::new();
+    let o = m.step(&json!({"ev": "lit", "ty": "CoseKey", "x": v["key"]}));
+    if o["kind"] == "harness" {
+        ctx.harness_error(format!("canon/lit: {}", o["err"]));
+        return;
+    }
+    let before = m.step(&json!({"ev": "encode", "api": "vec"}));
+    let c = m.step(&json!({"ev": "canonicalize", "ord": ord_name}));
+    if c["kind"] == "panic" {
+        ctx.mismatch(&p, v, "panic", json!({}));
+        return;
+    }
+    if c["kind"] == "harness" {
+        ctx.harness_error(format!("canonicalize: {}", c["err"]));
+        return;
+    }
+    ctx.judged += 1;
+    let after = m.step(&json!({"ev": "encode", "api": "vec"}));
+    if before["kind"] != "ok" || after["kind"] != "ok" {
+        ctx.mismatch(&p, v, "key-does-not-encode", json!({"before": before, "after": after}));
+        return;
+    }
+    let (bb, ab) = (bytes_of(&before["bytes"][0]).unwrap_or_default(), bytes_of(&after["bytes"][0]).unwrap_or_default());
+    let (bi, ai) = match (reader::read_all(&bb), reader::read_all(&ab)) {
+        (Ok(x), Ok(y)) => (x, y),
+        _ => {
+            ctx.mismatch(&p, v, "output-not-deterministic-cbor", json!({"bytes": hex(&ab)}));
+            return;
+        }
+    };
+    // Prop: keys strictly ascending under the chosen order, computed on the encoded keys
+    let keys: Vec<Vec<u8>> = ai["m"].as_array().map(|a| a.iter().filter_map(|e| enc_abs(&e[0]).ok()).collect()).unwrap_or_default();
+    let sorted = keys.windows(2).all(|w| {
+        if ord_name == "Lexicographic" {
+            w[0] < w[1]
+        } else {
+            len_first(&w[0], &w[1]) == std::cmp::Ordering::Less
+        }
+    });
+    if !sorted {
+        ctx.mismatch(&p, v, "encoded-keys-not-ascending", json!({"bytes": hex(&ab), "keys": keys.iter().map(|k| hex(k)).collect::<Vec<_>>()}));
+    }
+    // the set of label-value pairs is unchanged
+    let (be, ae) = (bi["m"].as_array().cloned().unwrap_or_default(), ai["m"].as_array().cloned().unwrap_or_default());
+    if !same_entries(&be, &ae) {
+        ctx.mismatch(&p, v, "pairs-changed", json!({"before": hex(&bb), "after": hex(&ab)}));
+        return;
+    }
+    // Design: exactly the value the specification computes
+    if !same(&v["expect"]["canon"], &after["val"][0]) {
+        ctx.deviation("canonicalized-value-differs-from-design", json!({"got": after["val"][0]}));
+    }
+    // idempotent
+    let _ = m.step(&json!({"ev": "canonicalize", "ord": ord_name}));
+    let again = m.step(&json!({"ev": "encode", "api": "vec"}));
+    if again["bytes"] != after["bytes"] {
+        ctx.mismatch(&p, v, "not-idempotent", json!({"first": hex(&ab), "second": again["bytes"]}));
+        return;
+    }
+    // a canonicalised key decodes and re-encodes to the same bytes, and to the same key as before
+    let r = catch_unwind(AssertUnwindSafe(|| CoseKey::from_slice(&ab).map(|k| (crate::proj::key(&k), k.to_vec()))));
+    match r {
+        Ok(Ok((kj, Ok(b2)))) => {
+            if b2 != ab {
+                ctx.mismatch(&p, v, "decode-encode-not-stable", json!({"first": hex(&ab), "second": hex(&b2)}));
+            }
+            let orig = CoseKey::from_slice(&bb).ok().map(|k| crate::proj::key(&k));
+            if let Some(oj) = orig {
+                let strip = |j: &J| {
+                    let mut j = j.clone();
+                    let mut ps: Vec<String> = j["params"].as_array().map(|a| a.iter().map(|x| x.to_string()).collect()).unwrap_or_default();
+                    ps.sort();
+                    j["params"] = json!(ps);
+                    j
+                };
+                if !same(&strip(&oj), &strip(&kj)) {
+                    ctx.mismatch(&p, v, "decoded-key-changed", json!({"before": oj, "after": kj}));
+                }
+            }
+        }
+        Ok(_) => ctx.mismatch(&p, v, "canonicalised-key-rejected", json!({"bytes": hex(&ab)})),
+        Err(_) => ctx.mismatch(&p, v, "panic", json!({})),
+    }
+}
+
+pub fn run_other(ctx: &mut Ctx, kind: &str, v: &J) {
+    match kind {
+        "canon" => run_canon(ctx, v),
+        _ => crate::runner5::run_other(ctx, kind, v),
+    }
+}
+
+#[allow(dead_code)]
+fn unused() {
+    let _ = Value::Null;
 }
